@@ -1099,7 +1099,8 @@ class Messenger(Connection):
         :type ext_items: array
         '''
         self._logger.debug('XFER_DATA %d %s', transfer_id, flags)
-        if not self._in_sess:
+        if not self._in_sess or not self._sess_parameters:
+            # before SESS_INIT, or after the session was refused during negotiation
             raise RejectError(messages.RejectMsg.Reason.UNEXPECTED)
 
     def recv_xfer_ack(self, transfer_id, flags, length):
